@@ -185,6 +185,59 @@ func runAccess(c runCfg) error {
 					}
 					return true
 				})
+				// a package-level variable of a reference type (slice, map, pointer, channel) handed to a callee may be written
+				// through, unless the callee is one that only reads its argument (io.Writer.Write's contract, bytes.Equal, ...)
+				ast.Inspect(fd.Body, func(n ast.Node) bool {
+					call, ok := n.(*ast.CallExpr)
+					if !ok {
+						return true
+					}
+					callee := types.ExprString(call.Fun)
+					readOnly := false
+					switch callee {
+					case "bytes.Equal", "bytes.Compare", "bytes.NewReader", "bytes.HasPrefix", "bytes.HasSuffix", "bytes.Contains", "bytes.Index",
+						"len", "cap", "string", "json.Valid", "json.Unmarshal":
+						readOnly = true
+					}
+					if sel, ok := call.Fun.(*ast.SelectorExpr); ok && sel.Sel.Name == "Write" && len(call.Args) == 1 {
+						readOnly = true // (io.Writer: "Write must not modify the slice data, even temporarily")
+					}
+					if tv, ok := p.TypesInfo.Types[call.Fun]; ok && tv.IsType() {
+						readOnly = true // a conversion
+					}
+					for ai, a := range call.Args {
+						if callee == "copy" && ai == 1 {
+							continue // the source of copy
+						}
+						if callee == "append" && ai > 0 {
+							continue // appended elements are read
+						}
+						if callee == "json.Unmarshal" && ai == 1 {
+							// (the target of Unmarshal is written: &global is already caught by the & rule)
+							continue
+						}
+						if readOnly {
+							continue
+						}
+						arg := a
+						if se, ok := arg.(*ast.SliceExpr); ok {
+							arg = se.X
+						}
+						id, ok := arg.(*ast.Ident)
+						if !ok {
+							continue
+						}
+						obj, ok := p.TypesInfo.Uses[id].(*types.Var)
+						if !ok || obj.Parent() != p.Types.Scope() {
+							continue
+						}
+						switch obj.Type().Underlying().(type) {
+						case *types.Slice, *types.Map, *types.Pointer, *types.Chan:
+							written[id] = true
+						}
+					}
+					return true
+				})
 				ast.Inspect(fd.Body, func(n ast.Node) bool {
 					id, ok := n.(*ast.Ident)
 					if !ok {
